@@ -1086,6 +1086,34 @@ class NativeExtraCases:
                     bad.append(dict(case="xyz with trailing blank lines", atoms=list(atom), pos=np.asarray(pos).tolist()))
             except Exception as e:  # noqa: BLE001
                 bad.append(dict(case="xyz with trailing blank lines", raised=f"{type(e).__name__}: {e}"))
+            # foreign XYZ / TRAJ files whose comment line is empty or blank (the format definition allows it), mixed species, three frames
+            ang = 0.529177210903
+            frames_txt = [("3", "", [("O", 0.0, 0.0, 0.1173), ("H", 0.0, 0.7572, -0.4692), ("H", 0.0, -0.7572, -0.4692)]),
+                          ("3", "   ", [("O", 0.1, 0.0, 0.1173), ("H", 0.1, 0.7572, -0.4692), ("H", 0.1, -0.7572, -0.4692)]),
+                          ("3", "frame 3", [("O", 0.2, 0.0, 0.1173), ("H", 0.2, 0.7572, -0.4692), ("H", 0.2, -0.7572, -0.4692)])]
+
+            def text(frs):
+                return "".join(f"{n}\n{c}\n" + "".join(f"{a} {x:.6f} {y:.6f} {z:.6f}\n" for a, x, y, z in rows) for n, c, rows in frs)
+
+            for label, frs in (("three frames, empty / blank / titled comment lines", frames_txt), ("one frame, empty comment line", frames_txt[:1]), ("two frames, blank comment first", frames_txt[1:])):
+                ft = os.path.join(d, "foreign.traj")
+                open(ft, "w").write(text(frs))
+                try:
+                    got = read_traj(ft)
+                    ok = len(got) == len(frs) and all(list(g[0]) == [r[0] for r in fr[2]] and np.abs(np.asarray(g[1]) - np.array([r[1:] for r in fr[2]]) / ang).max() < 1e-5 for g, fr in zip(got, frs))
+                    if not ok:
+                        bad.append(dict(case=f"foreign TRAJ: {label}", frames_read=len(got), frames_in_file=len(frs), species_read=[list(g[0]) for g in got]))
+                except Exception as e:  # noqa: BLE001
+                    bad.append(dict(case=f"foreign TRAJ: {label}", raised=f"{type(e).__name__}: {e}"))
+            for label, fr in (("empty comment line", frames_txt[0]), ("blank comment line", frames_txt[1])):
+                fx2 = os.path.join(d, "foreign2.xyz")
+                open(fx2, "w").write(text([fr]))
+                try:
+                    atom, pos = read_xyz(fx2)
+                    if list(atom) != [r[0] for r in fr[2]] or np.abs(np.asarray(pos) - np.array([r[1:] for r in fr[2]]) / ang).max() > 1e-5:
+                        bad.append(dict(case=f"foreign XYZ: {label}", species_read=list(atom), pos=np.asarray(pos).tolist()))
+                except Exception as e:  # noqa: BLE001
+                    bad.append(dict(case=f"foreign XYZ: {label}", raised=f"{type(e).__name__}: {e}"))
             # foreign POSCAR: scaling factor, Direct coordinates, then a blank line and a velocities block
             fp = os.path.join(d, "f.POSCAR")
             open(fp, "w").write("hexagonal test\n2.0\n 2.0 0.0 0.0\n -1.0 1.7320508 0.0\n 0.0 0.0 3.0\nB N\n1 1\nDirect\n 0.333333 0.666667 0.25\n 0.666667 0.333333 0.75\n\n 0.0 0.0 0.0\n 0.0 0.0 0.0\n")
